@@ -156,6 +156,15 @@ func main() {
 		runCase(c, ops, cfg)
 	}
 
+	for _, rc := range emptyComponentDirected() {
+		cfg := full
+		cfg.replayAt = rc.at
+		for k := 1; k < len(rc.ops); k++ {
+			cfg.holdAt = append(cfg.holdAt, k)
+		}
+		runCase(c, rc.ops, cfg)
+	}
+
 	// (2) exhaustive short sequences over the reduced alphabet (every prefix is itself enumerated,
 	// so one snapshot-and-restore at the end of each sequence covers "at every prefix")
 	alpha := c22Alphabet()
@@ -170,7 +179,10 @@ func main() {
 			cfg.holdAt = []int{n - 1}
 		}
 		if n <= 3 {
-			for k := 1; k < n; k++ {
+			for k := 0; k < n; k++ {
+				if k == 0 && n > 2 {
+					continue
+				}
 				cfg.replayAt = append(cfg.replayAt, k)
 			}
 		} else {
